@@ -9,6 +9,7 @@ struct COp { int k = 0, a = 0, b = 0; };
 enum { VCB_NONE, VCB_SELECT, VCB_FAIL, VCB_MUTATE, VCB_KID, VCB_ALG_ONLY, VCB_MISMATCH, VCB_KEY_NOALG, VCB_N };   // the last three return 0 and leave the config in a state the key/alg policy refuses
 static const char *VCBN[] = {"none", "selects-key+alg", "fails", "mutates-token", "selects-key-by-kid", "sets-alg-without-key", "sets-alg-other-than-the-key's", "selects-key-without-alg"};
 struct VCtx { int kind; int other = 0; };   // other: key-selecting callbacks hand out ANOTHER key of the same kind and algorithm (what a key rotation behind a kid lookup does)
+inline const jwk_item_t *unknown_alg_key() { static LKey *k = nullptr; if (!k) { JwkOpts o; o.alg = "RSA-OAEP-256"; o.priv = false; k = new LKey(jwk_json(pool().get("rsa_2048"), o)); } return k->item; }
 inline const jwk_item_t *other_oct_key() { static LKey *k = nullptr; if (!k) { JwkOpts o; o.alg = "HS256"; o.priv = true; k = new LKey(jwk_json(pool().get("oct64b"), o)); } return k->item; }
 // a callback registered WITHOUT a context (setcb(obj, cb, NULL) - what the command-line tools do): it finds its state in a global
 inline VCtx &noctx_state() { static VCtx v{VCB_NONE}; return v; }
@@ -21,7 +22,7 @@ static int checker_cb_body(jwt_t *jwt, jwt_config_t *c, VCtx *x) {
   case VCB_FAIL: return 1;
   case VCB_ALG_ONLY: c->key = nullptr; c->alg = JWT_ALG_HS256; return 0;
   case VCB_MISMATCH: c->key = keytab()[1].lk->item; c->alg = JWT_ALG_HS512; return 0;
-  case VCB_KEY_NOALG: c->key = keytab()[0].lk->item; c->alg = JWT_ALG_NONE; return 0;
+  case VCB_KEY_NOALG: c->key = x->other ? unknown_alg_key() : keytab()[0].lk->item; c->alg = JWT_ALG_NONE; return 0;   // other: a cleanly loaded key whose alg attribute is a string libjwt has no name for
   case VCB_KID: { jwt_value_t v = val_get(JWT_VALUE_STR, "kid"); if (jwt_header_get(jwt, &v) == JWT_VALUE_ERR_NONE && v.str_val && !strcmp(v.str_val, "known")) { c->key = x->other ? other_oct_key() : keytab()[1].lk->item; c->alg = JWT_ALG_HS256; } return 0; }   // per-token choice: must not stick to the checker
   case VCB_MUTATE: { jwt_value_t v = val_str("zz", "1", 1); jwt_claim_set(jwt, &v); jwt_header_del(jwt, "typ"); return 0; }
   }
@@ -66,10 +67,10 @@ static std::string cop_str(const COp &o) {
   std::string s = CN[o.k % C_N]; s += "(";
   switch (o.k % C_N) {
   case C_SETKEY: { int k = CKEYS[o.b % 7]; jwt_alg_t a = CALGS[o.a % 4]; s += std::string(a == JWT_ALG_NONE ? "none" : jwt_alg_str(a)) + "," + (k < 0 ? "NULL" : keytab()[k].label); break; }
-  case C_CLAIM_SET: s += std::string(o.a % 3 == 0 ? "iss" : o.a % 3 == 1 ? "sub" : "exp!") + "," + (o.b & 1 ? "issuer" : "other"); break;
+  case C_CLAIM_SET: s += std::string(o.a % 3 == 0 ? "iss" : o.a % 3 == 1 ? "sub" : "exp!") + "," + ((o.b % 7) == 6 ? "not-utf8" : o.b & 1 ? "issuer" : "other"); break;
   case C_CLAIM_DEL: s += o.a % 2 ? "sub" : "iss"; break;
   case C_LEEWAY: s += std::string(o.a & 1 ? "nbf" : "exp") + "," + std::to_string(CLEE[o.b % 4]); break;
-  case C_SETCB: s += VCBN[o.a % VCB_N]; if ((o.b % 3) == 2 && (o.a % VCB_N == VCB_SELECT || o.a % VCB_N == VCB_KID)) s += ",other-key-of-the-same-kind"; if ((o.b % 5) == 4 && o.a % VCB_N != VCB_NONE) s += ",registered-without-ctx"; break;
+  case C_SETCB: s += VCBN[o.a % VCB_N]; if ((o.b % 3) == 2 && (o.a % VCB_N == VCB_SELECT || o.a % VCB_N == VCB_KID)) s += ",other-key-of-the-same-kind"; if ((o.b % 3) == 2 && o.a % VCB_N == VCB_KEY_NOALG) s += ",key-with-unknown-alg-attribute"; if ((o.b % 5) == 4 && o.a % VCB_N != VCB_NONE) s += ",registered-without-ctx"; break;
   case C_CLOCK: s += std::to_string(CLK[o.a % 5]); break;
   case C_VERIFY: s += TOKENS[o.a % TOKENS.size()].first; break;
   }
@@ -80,7 +81,7 @@ static VRes capply(CExec &x, const COp &o, bool *is_verify = nullptr) {
   VRes r{0, 0, ""}; jwt_checker_t *c = x.c;
   switch (o.k % C_N) {
   case C_SETKEY: { int k = CKEYS[o.b % 7]; r.ret = jwt_checker_setkey(c, CALGS[o.a % 4], k < 0 ? nullptr : keytab()[k].lk->item); break; }
-  case C_CLAIM_SET: r.ret = jwt_checker_claim_set(c, o.a % 3 == 0 ? JWT_CLAIM_ISS : o.a % 3 == 1 ? JWT_CLAIM_SUB : JWT_CLAIM_EXP, o.b & 1 ? "issuer" : "other"); break;
+  case C_CLAIM_SET: r.ret = jwt_checker_claim_set(c, o.a % 3 == 0 ? JWT_CLAIM_ISS : o.a % 3 == 1 ? JWT_CLAIM_SUB : JWT_CLAIM_EXP, (o.b % 7) == 6 ? "caf\xe9.example" /* Latin-1, not UTF-8: refused */ : o.b & 1 ? "issuer" : "other"); break;
   case C_CLAIM_DEL: r.ret = jwt_checker_claim_del(c, o.a % 2 ? JWT_CLAIM_SUB : JWT_CLAIM_ISS); break;
   case C_LEEWAY: r.ret = jwt_checker_time_leeway(c, o.a & 1 ? JWT_CLAIM_NBF : JWT_CLAIM_EXP, (time_t)CLEE[o.b % 4]); break;
   case C_SETCB: { int kind = o.a % VCB_N; x.cx.kind = kind; x.cx.other = (o.b % 3) == 2;
